@@ -882,6 +882,52 @@ func genACL(tier string, emit func(Case)) {
 		}
 		rec(nil)
 	}
+	// wide masks: prefix lengths at and next to the byte boundaries, /0 and /1, with addresses inside,
+	// on the boundary of and outside each entry (the 4-bit sub-space above only has /28../32)
+	wide := func(specs []string) []aclEntry {
+		var out []aclEntry
+		for _, sp := range specs {
+			ip, n, err := net.ParseCIDR(sp)
+			if err != nil {
+				panic(err)
+			}
+			ones, _ := n.Mask.Size()
+			for _, neg := range []bool{false, true} {
+				out = append(out, aclEntry{ip: ip.String(), mask: ones, neg: neg, net: n})
+			}
+		}
+		return out
+	}
+	w4 := wide([]string{"0.0.0.0/0", "128.0.0.0/1", "10.0.0.0/7", "10.0.0.0/8", "10.128.0.0/9", "10.0.0.0/15", "10.1.0.0/16", "10.1.128.0/17", "10.1.2.0/23", "10.1.2.0/24", "10.1.2.128/25", "10.1.2.2/31"})
+	wa4 := []string{"0.0.0.0", "127.255.255.255", "128.0.0.0", "255.255.255.255", "9.255.255.255", "10.0.0.0", "10.255.255.255", "11.0.0.0", "11.255.255.255", "12.0.0.0",
+		"10.127.255.255", "10.128.0.0", "10.0.255.255", "10.1.0.0", "10.1.255.255", "10.2.0.0", "10.1.127.255", "10.1.128.0", "10.1.1.255", "10.1.2.0", "10.1.2.127",
+		"10.1.2.128", "10.1.2.255", "10.1.3.0", "10.1.3.255", "10.1.4.0", "10.1.2.1", "10.1.2.2", "10.1.2.3", "10.1.2.4", "192.168.0.1"}
+	w6 := wide([]string{"::/0", "8000::/1", "2001:db8::/31", "2001:db8::/32", "2001:db8:8000::/33", "2001:db8:0:1::/63", "2001:db8:0:1::/64", "2001:db8::2/127"})
+	wa6 := []string{"::", "7fff::1", "8000::", "ffff::1", "2001:db7:ffff::1", "2001:db8::", "2001:db8:7fff::1", "2001:db8:8000::", "2001:db8:ffff::1", "2001:db9::1", "2001:dba::1",
+		"2001:db8:0:0:ffff::1", "2001:db8:0:1::", "2001:db8:0:1:ffff::1", "2001:db8:0:2::1", "2001:db8::1", "2001:db8::2", "2001:db8::3", "2001:db8::4", "::1"}
+	maxW := 2
+	if tier == "thorough" {
+		maxW = 3
+	}
+	for _, fam := range []struct {
+		name  string
+		alpha []aclEntry
+		addrs []string
+	}{{"ipv4-wide", w4, wa4}, {"ipv6-wide", w6, wa6}} {
+		var rec func(cur []aclEntry)
+		rec = func(cur []aclEntry) {
+			if len(cur) > 0 {
+				emitACL(emit, cur, fam.addrs, fam.name)
+			}
+			if len(cur) == maxW {
+				return
+			}
+			for _, e := range fam.alpha {
+				rec(append(append([]aclEntry{}, cur...), e))
+			}
+		}
+		rec(nil)
+	}
 	// mixed families in one ACL
 	emitACL(emit, []aclEntry{v4Alphabet()[0], v6Alphabet()[1], v4Alphabet()[3]}, append(append([]string{}, a4[:4]...), a6[:3]...), "mixed")
 }
@@ -956,7 +1002,7 @@ func init() {
 	engine.Register(engine.Spec[Case]{
 		ID:    "C07",
 		Level: "exploration",
-		Rule: "programs of the core language enumerated completely over stated alphabets and compared with an independent reference evaluator (mc/checks/c07, written from the Fastly documentation): (1) every assignment operator x operand pair from 10 INTEGER, 5 FLOAT, 4 RTIME and 2 BOOL values x {literal, variable} where the reference defines the result (no overflow, divisor != 0, shift/rotate count 0..63), declaration defaults and STRING renderings; (2) every comparison of 21 typed atoms (set/not-set/empty strings, headers, literals) with ==, !=, <, >, <=, >= where defined, regex matches over 8 patterns in the RE2/PCRE common subset, truthiness, prefix !, and all &&/||/! combinations over a reduced leaf set; each comparison also in its dual form (a<b vs b>a, == vs !=, ~ vs !~) checked on the implementation alone; (3) every truth assignment of if / else-if / else chains up to 3 conditions, every switch over 5 controls x arrangements of up to 3 (quick) / 4 (thorough) cases (== and ~ tests) x fallthrough flags x default position, not-set propagation; (4) every ACL of up to 3 (quick) / 4 (thorough) entries from the 62 plain/negated prefixes of a 4-bit IPv4 sub-space (hosts without mask) x 18 addresses, and the same on a 3-bit IPv6 sub-space, against a longest-prefix reference. non-trivial = every case; distinct = distinct program",
+		Rule: "programs of the core language enumerated completely over stated alphabets and compared with an independent reference evaluator (mc/checks/c07, written from the Fastly documentation): (1) every assignment operator x operand pair from 10 INTEGER, 5 FLOAT, 4 RTIME and 2 BOOL values x {literal, variable} where the reference defines the result (no overflow, divisor != 0, shift/rotate count 0..63), declaration defaults and STRING renderings; (2) every comparison of 21 typed atoms (set/not-set/empty strings, headers, literals) with ==, !=, <, >, <=, >= where defined, regex matches over 8 patterns in the RE2/PCRE common subset, truthiness, prefix !, and all &&/||/! combinations over a reduced leaf set; each comparison also in its dual form (a<b vs b>a, == vs !=, ~ vs !~) checked on the implementation alone; (3) every truth assignment of if / else-if / else chains up to 3 conditions, every switch over 5 controls x arrangements of up to 3 (quick) / 4 (thorough) cases (== and ~ tests) x fallthrough flags x default position, not-set propagation; (4) every ACL of up to 3 (quick) / 4 (thorough) entries from the 62 plain/negated prefixes of a 4-bit IPv4 sub-space (hosts without mask) x 18 addresses, and the same on a 3-bit IPv6 sub-space, plus every ACL of up to 2 (quick) / 3 (thorough) entries from 24 IPv4 and 16 IPv6 plain/negated prefixes with masks /0, /1 and at and next to the byte boundaries x 31 / 20 addresses inside, on the boundary of and outside each, against a longest-prefix reference. non-trivial = every case; distinct = distinct program",
 		Gen:  gen07,
 		Key:  func(c Case) string { return c.Decls + "\x00" + c.Probe },
 		Run:  run,
